@@ -61,7 +61,7 @@ Print Assumptions C11_gap_at_most_10.
    and are null in arrays, wrappers are unboxed, non-finite numbers are null,
    a reference to an enclosing container is a TypeError *)
 Theorem C11_stringify_shape : forall v, plain v ->
-  forall fuel key, (depth v < fuel)%nat -> str_walk es5 RNone None fuel false key v = denote v.
+  forall fuel inarr key, (depth v < fuel)%nat -> str_walk es5 RNone None fuel false inarr key v = denote v.
 Proof. exact str_walk_shape. Qed.
 Print Assumptions C11_stringify_shape.
 
